@@ -63,6 +63,11 @@ func (prop) Cases(tier string, seed uint64) []core.Case {
 	for i := 0; i < n; i++ {
 		cs = append(cs, core.Case{ID: fmt.Sprintf("hist-%d", i), Kind: "history", Seed: seed*8009 + uint64(i), N: 1})
 	}
+	// events collected on the service directly (any level sequence, also OK for IDs that have no
+	// stored state, several topics)
+	for i := 0; i < n/3; i++ {
+		cs = append(cs, core.Case{ID: fmt.Sprintf("svc-%d", i), Kind: "service", Seed: seed*8011 + uint64(i), N: 1})
+	}
 	return cs
 }
 
@@ -317,7 +322,141 @@ func run(x *core.Ctx, sc scenario, dbPath, snapDir, logPath string, from int) (r
 	return res, true
 }
 
+// runService: direct Collect histories on the service; crash after every commit; oracles (1) and (2).
+func runService(x *core.Ctx) {
+	r := core.NewRng(x.Case.Seed, 88)
+	scratch, err := os.MkdirTemp(x.Scratch, "c08s")
+	if err != nil {
+		x.Inconclusive(err.Error())
+		return
+	}
+	defer os.RemoveAll(scratch)
+	type ev struct {
+		topic, id string
+		level     alert.Level
+	}
+	topics := []string{"T1", "T2", "T3"}[:r.Range(1, 3)]
+	ids := []string{"a", "b", "c", "d"}
+	var evs []ev
+	for i, n := 0, r.Range(10, 30); i < n; i++ {
+		evs = append(evs, ev{r.Pick(topics), r.Pick(ids), levels4[r.Intn(4)]})
+	}
+	var desc []string
+	for i, e := range evs {
+		desc = append(desc, fmt.Sprintf("%d:%s/%s=%v", i, e.topic, e.id, e.level))
+	}
+	sub := "service events [" + strings.Join(desc, " ") + "]"
+	if !x.Announce(sub) {
+		return
+	}
+	x.Count("evaluations", 1)
+	snapDir := filepath.Join(scratch, "snaps")
+	os.MkdirAll(snapDir, 0755)
+	var cur int32 = -1
+	ss, err := kit.OpenBoltStorage(filepath.Join(scratch, "u.db"), snapDir, &cur)
+	if err != nil {
+		x.Inconclusive(err.Error())
+		return
+	}
+	env, err := kit.NewEnv(kit.EnvOpts{Scratch: x.Scratch, PersistTopics: true, AlertStorage: ss})
+	if err != nil {
+		ss.CloseBolt()
+		x.Inconclusive(err.Error())
+		return
+	}
+	for i, e := range evs {
+		atomic.StoreInt32(&cur, int32(i))
+		if err := env.Alert.Collect(alert.Event{Topic: e.topic, State: alert.EventState{ID: e.id, Level: e.level, Message: fmt.Sprint(i), Time: t0.Add(time.Duration(i) * time.Second)}}); err != nil {
+			x.Violatef("collect-error", "Collect failed", sub, "event %d: %v", i, err)
+		}
+	}
+	snaps := ss.Snaps()
+	env.Close()
+	ss.CloseBolt()
+	x.Count("boundaries", int64(len(snaps)))
+	for _, sn := range snaps {
+		i := int(sn.Point)
+		if i < 0 {
+			continue
+		}
+		disk, err := diskStates(sn.Path)
+		if err != nil {
+			x.Violatef("disk-unreadable", "stored topic state cannot be read back", sub, "commit %d: %v", sn.K, err)
+			return
+		}
+		for _, t := range topics {
+			for _, id := range ids {
+				before, after := alert.OK, alert.OK
+				for j := 0; j <= i; j++ {
+					if evs[j].topic == t && evs[j].id == id {
+						after = evs[j].level
+						if j < i {
+							before = evs[j].level
+						}
+					}
+				}
+				got := alert.OK
+				if disk[t] != nil {
+					got = disk[t][id]
+				}
+				x.Count("disk_entries_checked", 1)
+				inflight := evs[i].topic == t && evs[i].id == id
+				if got != after && !(inflight && got == before) {
+					x.Violatef("disk-state", fmt.Sprintf("on disk an ID does not have its last non-OK level (disk %v, last level %v)", got, after), sub, "after commit %d (event %d = %s/%s=%v): topic %s id %s on disk %v, last collected level %v", sn.K, i, evs[i].topic, evs[i].id, evs[i].level, t, id, got, after)
+					return
+				}
+			}
+		}
+		// restart on a copy: reported == disk
+		work := filepath.Join(scratch, fmt.Sprintf("r-%d.db", sn.K))
+		if copyFile(sn.Path, work) != nil {
+			continue
+		}
+		s2, err := kit.OpenBoltStorage(work, "", nil)
+		if err != nil {
+			continue
+		}
+		e2, err := kit.NewEnv(kit.EnvOpts{Scratch: x.Scratch, PersistTopics: true, AlertStorage: s2})
+		if err != nil {
+			s2.CloseBolt()
+			x.Violatef("restart-failed", "the alert service does not open on its own storage", sub, "commit %d: %v", sn.K, err)
+			return
+		}
+		x.Count("restarts", 1)
+		for t, m := range disk {
+			for id, l := range m {
+				st, ok, _ := e2.Alert.EventState(t, id)
+				if !ok || st.Level != l {
+					x.Violatef("restore-fidelity", "the restarted service reports another level than the one on disk", sub, "commit %d: topic %s id %s on disk %v, reported %v (known %v)", sn.K, t, id, l, st.Level, ok)
+					e2.Close()
+					s2.CloseBolt()
+					return
+				}
+			}
+		}
+		e2.Close()
+		s2.CloseBolt()
+		os.Remove(work)
+		if len(disk) >= 2 || (len(disk) == 1 && len(firstMap(disk)) >= 2) {
+			x.Nontrivial(fmt.Sprintf("svc|%d|%d|%v", len(topics), sn.K%11, evs[i].level))
+		}
+	}
+}
+
+var levels4 = []alert.Level{alert.OK, alert.Info, alert.Warning, alert.Critical}
+
+func firstMap(m map[string]map[string]alert.Level) map[string]alert.Level {
+	for _, v := range m {
+		return v
+	}
+	return nil
+}
+
 func (prop) Run(x *core.Ctx) {
+	if x.Case.Kind == "service" {
+		runService(x)
+		return
+	}
 	r := core.NewRng(x.Case.Seed, 8)
 	scratch, err := os.MkdirTemp(x.Scratch, "c08")
 	if err != nil {
